@@ -494,7 +494,10 @@ instead of corrupting state"; any state `s` with `d.Mutex` free, any other gorou
 3. `Unlock(x)` of a registered entity whose mutex (internal mutex free) is not write-locked or has readers: after its
    five steps the goroutine has panicked inside `StarvingMutex.Unlock` and the shared state is `s` except that the
    internal mutex of that one object is locked — registry, consumer counts, `(writer, readers, pending)` and the
-   condition variables of every object are untouched. -/
+   condition variables of every object are untouched.
+4. `RUnlock(xs…)` that passes the lookup (`lookAll` = the objects `o :: os`) but whose first mutex is not read-locked or
+   is write-locked: the same, inside `StarvingMutex.RUnlock` of `o` (for a later id see
+   `C17_dag_misuse_panic_preserves_state` (4) and `C17_dag_misuse_panic_kth_id_witness`). -/
 theorem C17_dag_misuse_call_preserves_state (s : CSh) (t : CTh) (r : List Dag.DOp) (others : List CTh)
     (hc : t.ctl = .idle) (hd : s.dm = false) :
     (∀ x, t.script = .unlock x :: r → s.ent x = none →
@@ -505,10 +508,16 @@ theorem C17_dag_misuse_call_preserves_state (s : CSh) (t : CTh) (r : List Dag.DO
       (0 < (s.heap o).readers ∨ (s.heap o).writer = false) →
       ∃ t', Conc.runSched Comp.sys (s, t :: others) (List.replicate 5 (0, 0)) =
           ({ s with heap := Dag.upd s.heap o { s.heap o with m := true } }, t' :: others) ∧
+        t'.ipc = .dead ∧ t'.script = r) ∧
+    (∀ xs o os, t.script = .runlock xs :: r → lookAll s [] xs = some (o :: os) → (s.heap o).m = false →
+      ((s.heap o).readers = 0 ∨ (s.heap o).writer = true) →
+      ∃ t', Conc.runSched Comp.sys (s, t :: others) (List.replicate 5 (0, 0)) =
+          ({ s with heap := Dag.upd s.heap o { s.heap o with m := true } }, t' :: others) ∧
         t'.ipc = .dead ∧ t'.script = r) :=
   ⟨fun x hs he => call_unlock_unregistered s t x r others hc hs hd he,
    fun xs hs he => call_runlock_lookup s t xs r others hc hs hd he,
-   fun x o hs he hm hw => call_unlock_wrong_mode s t x o r others hc hs hd he hm hw⟩
+   fun x o hs he hm hw => call_unlock_wrong_mode s t x o r others hc hs hd he hm hw,
+   fun xs o os hs hl hm hw => call_runlock_wrong_mode s t xs o os r others hc hs hd hl hm hw⟩
 
 /-- Non-vacuity of the hypotheses of `C17_dag_misuse_call_preserves_state` (3): after `RLock(1)` entity 1 is registered,
 its mutex is read-locked with the internal mutex free, and the goroutine is between calls. -/
